@@ -13,6 +13,12 @@ def gen_names(rng, n):
         name = '.'.join(parts)
         name = '$' * rng.choice([0, 0, 0, 1, 2]) + name
         out.append(name.encode('utf-8'))
+    # long components: around every power of two up to 4 KiB, in bytes (ASCII) and in multi-byte characters; pairs that share a long prefix
+    for L in (31, 32, 33, 63, 64, 65, 127, 128, 129, 255, 256, 257, 300, 511, 512, 513, 1024, 1025, 4096, 5000):
+        base = ''.join(rng.choice('abcdefghijklmnop') for _ in range(L))
+        out += [base.encode(), (base + 'X').encode(), (base + 'Y').encode(), (base[:-1] + 'Z').encode(), ('db.' + base + '.c').encode(), ('$' + base).encode()]
+        cjk = ''.join(rng.choice('中文数据库集合字段') for _ in range(L // 3 + 1))
+        out += [cjk.encode('utf-8'), (cjk + '名').encode('utf-8'), (cjk + '称').encode('utf-8')]
     return out
 
 def run(chk, replay=None):
@@ -52,6 +58,16 @@ def run(chk, replay=None):
         pat = b'\\.'.join([re.escape(r) + b'_[0-9a-f]{16}'] * len(parts))
         if not re.fullmatch(pat, out):
             chk.violate('pseudonym format / depth', {'repl': r.decode('utf-8', 'replace'), 'name': n.decode('utf-8', 'replace'), 'out': out.decode('utf-8', 'replace')}, tags=['format'])
+    # different components, different pseudonyms: over all generated single-component names (long ones, names sharing long prefixes, Unicode)
+    byps = {}
+    for (r, n), out in impl.items():
+        t = n.lstrip(b'$')
+        if b'.' in t: continue
+        other = byps.setdefault((r, out), t)
+        chk.count()
+        if other != t:
+            chk.violate('two different name components share a pseudonym', {'repl': r.decode('utf-8', 'replace'), 'len_a': len(other), 'len_b': len(t), 'a': other.decode('utf-8', 'replace')[:300], 'b': t.decode('utf-8', 'replace')[:300],
+                        'common_prefix_bytes': len(os.path.commonprefix([other, t])), 'pseudonym': out.decode('utf-8', 'replace')}, tags=['collision', 'generated'])
     # '$' invariance, component-wise, stability within one process (same name asked twice, different order)
     r = b'REDACTED'
     probe = names[:200]
